@@ -177,6 +177,25 @@ example : newSessionOk [.call "Session.init", .call "Transport.IsSecure", .call 
     .call "Session.reset", .call "Session.resume", .call "Session.bind", .call "Session.EnableStreamManagement",
     .call "Session.rfc3921Session", .call "return s, s.err"] = false := by decide +kernel
 
+/-- every call whose name begins with `w` sits inside the then-side of a branch on exactly the condition `cond` -/
+def guardedBy (cond w : String) : Fx.Fx → Bool → Bool
+  | .ret _, _ => true
+  | .act (.call x) k, ins => (!(x.startsWith w) || ins) && guardedBy cond w k ins
+  | .act _ k, ins => guardedBy cond w k ins
+  | .branch c t e, ins => guardedBy cond w t (ins || c == cond) && guardedBy cond w e ins
+  | .loop b k, ins => guardedBy cond w b ins && guardedBy cond w k ins
+  | .brk, _ => true
+  | .cont, _ => true
+
+/-- NewClient (C20): the address the application configured is looked up in the DNS (SRV) only when it configured NONE -
+the look-up, and the assignment of its result, sit under `config.Address == ""` and nowhere else; NewComponent calls
+nothing that could refuse or rewrite an address (it only stores its options). -/
+theorem new_client_keeps_the_address :
+    guardedBy "(config.Address==\"\")" "net.LookupSRV" (get "NewClient") false = true ∧
+    guardedBy "(config.Address==\"\")" "ensurePort" (get "NewClient") false = true ∧
+    (get "NewClient").mentions (.call "net.LookupSRV(\"xmpp-client\",\"tcp\",_)") = true ∧
+    allTraces (get "NewComponent") (fun t => t.length == 1) = true := by decide +kernel
+
 /-- StreamManager.Stop: handler removed, client disconnected, Run released - in this order, on its only path -/
 theorem stop_every_path :
     allTraces (get "StreamManager.Stop") (fun t =>
@@ -205,3 +224,4 @@ end XmppVerif.Tie.FxConn
 #print axioms XmppVerif.Tie.FxConn.new_session_every_path
 #print axioms XmppVerif.Tie.FxConn.new_session_every_run
 #print axioms XmppVerif.Tie.FxConn.component_model_is_the_code
+#print axioms XmppVerif.Tie.FxConn.new_client_keeps_the_address
